@@ -6,6 +6,8 @@ import TemprenModel.Model.AdHoc
 import TemprenModel.Model.Registry
 import TemprenModel.Model.Order
 import TemprenModel.Model.Text
+import TemprenModel.Model.PyRepr
+import Std.Data.HashSet
 open Tempren Tempren.Proto
 
 def hexNibble (c : Char) : Option Nat :=
@@ -235,6 +237,24 @@ def handle (line : String) : String :=
     match decStr d, decStr ctx with
     | some d, some ctx => encStr (defaultTag d ctx)
     | _, _ => "bad-op"
+  | ["repr", str, nonpr] =>
+    match decStr str, decList nonpr with
+    | some str, some np =>
+      let nps : Std.HashSet Nat := Std.HashSet.ofList (np.filterMap String.toNat?)
+      let printable := fun (c : Char) => !(nps.contains c.toNat)
+      encStr (pyRepr printable str)
+    | _, _ => "bad-op"
+  | ["scan", text] =>
+    match decStr text with
+    | some t =>
+      match scanStringLit t with
+      | some (v, rest) => "some " ++ encStr v ++ " " ++ encStr rest
+      | none => "none"
+    | none => "bad-op"
+  | ["reprint", i] =>
+    match decInt i with
+    | some i => encStr (pyIntStr i)
+    | none => "bad-op"
   | _ => "bad-op"
 
 partial def loop (h : IO.FS.Stream) (out : IO.FS.Stream) : IO Unit := do
